@@ -1248,9 +1248,8 @@ Proof.
       destruct lvls' as [|l1 lr] eqn:El; [destruct HL'|]. cbn [full_sub]. apply in_or_app. left.
       change (last (c :: c2 :: rest2) (0, 0, 0)) with (last (c2 :: rest2) (0, 0, 0)).
       apply IH; auto; try discriminate; try lia.
-      * unfold valid_level in Hv. apply andb_true_iff in Hv. rewrite Z.leb_le, Z.ltb_lt in Hv. lia.
-      * cbn [length] in *. replace (l + 1 + Z.of_nat (S (length rest2)) - 1) with (l + Z.of_nat (S (S (length rest2))) - 1) by lia.
-        exact HL'.
+      cbn [length] in *. replace (l + 1 + Z.of_nat (S (length rest2)) - 1) with (l + Z.of_nat (S (S (length rest2))) - 1) by lia.
+      exact HL'.
 Qed.
 
 (* every chain of selected, not-NONE meta tiles from level 0 to a seeded level ends in a tile that is handed over *)
@@ -1268,3 +1267,205 @@ Proof.
   - intros x Hx. pose proof (Hval x Hx) as Hv. unfold valid_level in Hv. apply andb_true_iff in Hv.
     rewrite Z.leb_le in Hv. lia.
 Qed.
+
+(* ------------------------------------------------------------------ everything selected: interior points *)
+
+(* the meta tile (its main tile coordinate) that owns the point (px, py) at level l *)
+Definition point_meta (g : grid) (msx msy px py l : Z) : coord :=
+  let '(tx, ty) := tile g px py l in
+  let '(sx, sy) := meta_size g msx msy l in
+  (tx / sx * sx, ty / sy * sy, l).
+
+(* the tile of the point is a tile of the grid *)
+Definition point_in_grid (g : grid) (px py l : Z) : Prop :=
+  let '(tx, ty) := tile g px py l in
+  let '(nx, ny) := grid_size g l in 0 <= tx < nx /\ 0 <= ty < ny.
+
+(* (px, py) lies at least d inside the rectangle *)
+Definition inset (b : bbox) (d px py : Z) : Prop :=
+  let '(b0, b1, b2, b3) := b in b0 + d <= px <= b2 - d /\ b1 + d <= py <= b3 - d.
+
+Lemma in_up_range q0 q q1 s : 0 < s -> q0 <= q <= q1 -> In (q * s) (up_range (q0 * s) (q1 * s) s).
+Proof.
+  intros Hs Hq. unfold up_range. apply in_map_iff. exists (Z.to_nat (q - q0)). split; [rewrite Z2Nat.id by lia; lia|].
+  apply in_seq. replace (q1 * s - q0 * s) with ((q1 - q0) * s) by lia. rewrite Z.div_mul by lia. lia.
+Qed.
+
+Lemma in_down_range q0 q q1 s : 0 < s -> q0 <= q <= q1 -> In (q * s) (down_range (q1 * s) (q0 * s) s).
+Proof.
+  intros Hs Hq. unfold down_range. apply in_map_iff. exists (Z.to_nat (q1 - q)). split; [rewrite Z2Nat.id by lia; lia|].
+  apply in_seq. replace (q1 * s - q0 * s) with ((q1 - q0) * s) by lia. rewrite Z.div_mul by lia. lia.
+Qed.
+
+Lemma div2_cancel a b : 0 < b -> (2 * a) / (2 * b) = a / b.
+Proof. intros Hb. apply Z.div_mul_cancel_l; lia. Qed.
+
+(* a point at least 1/10 pixel inside the rectangle: its meta tile is among the listed tiles *)
+Lemma point_selected g msx msy cur px py l :
+  geo_wf g msx msy -> valid_level g l = true ->
+  inset cur (res_at g l / 10) px py -> point_in_grid g px py l ->
+  In (Some (point_meta g msx msy px py l)) (affected_tiles g msx msy cur l).
+Proof.
+  intros Hwf Hv Hin Hgrid. pose proof (geo_res_pos g msx msy l Hwf Hv) as Hr.
+  destruct Hwf as (Htw & Hth & _ & Hmx & Hmy).
+  destruct cur as [[[bx0 by0] bx1] by1]. cbn [inset] in Hin. destruct Hin as [Hix Hiy].
+  unfold affected_tiles, meta_affected, point_meta, point_in_grid, tile2, tile, meta_size, grid_size in *.
+  set (r := res_at g l) in *. set (delta := r / 10) in *.
+  replace (bx1 - delta <? bx0 + delta) with false by (symmetry; apply Z.ltb_ge; lia).
+  replace (by1 - delta <? by0 + delta) with false by (symmetry; apply Z.ltb_ge; lia).
+  set (nx := axis_tiles (gx1 g - gx0 g) r (tw g)) in *. set (ny := axis_tiles (gy1 g - gy0 g) r (th g)) in *.
+  set (sx := Z.min msx nx). set (sy := Z.min msy ny).
+  assert (Hsx : 0 < sx) by (subst sx nx; unfold axis_tiles; lia).
+  assert (Hsy : 0 < sy) by (subst sy ny; unfold axis_tiles; lia).
+  assert (Dx : 0 < r * tw g) by nia. assert (Dy : 0 < r * th g) by nia.
+  replace (2 * (bx0 + delta) - 2 * gx0 g) with (2 * (bx0 + delta - gx0 g)) by lia.
+  replace (2 * (bx1 - delta) - 2 * gx0 g) with (2 * (bx1 - delta - gx0 g)) by lia.
+  rewrite !div2_cancel by assumption.
+  set (tx := (px - gx0 g) / (r * tw g)) in *.
+  assert (Hx0 : (bx0 + delta - gx0 g) / (r * tw g) <= tx) by (apply Z.div_le_mono; lia).
+  assert (Hx1 : tx <= (bx1 - delta - gx0 g) / (r * tw g)) by (apply Z.div_le_mono; lia).
+  set (q0x := (bx0 + delta - gx0 g) / (r * tw g) / sx). set (q1x := (bx1 - delta - gx0 g) / (r * tw g) / sx).
+  assert (Hqx : q0x <= tx / sx <= q1x) by (split; apply Z.div_le_mono; lia).
+  pose proof (in_up_range q0x (tx / sx) q1x sx Hsx Hqx) as Hxs.
+  assert (Hvx : 0 <= tx / sx * sx <= tx).
+  { pose proof (Z.mul_div_le tx sx Hsx). assert (0 <= tx / sx) by (apply Z.div_pos; lia). nia. }
+  destruct (ul g).
+  - replace (2 * gy1 g - 2 * (by0 + delta)) with (2 * (gy1 g - (by0 + delta))) by lia.
+    replace (2 * gy1 g - 2 * (by1 - delta)) with (2 * (gy1 g - (by1 - delta))) by lia.
+    rewrite !div2_cancel by assumption.
+    set (ty := (gy1 g - py) / (r * th g)) in *.
+    assert (Hy0 : (gy1 g - (by1 - delta)) / (r * th g) <= ty) by (apply Z.div_le_mono; lia).
+    assert (Hy1 : ty <= (gy1 g - (by0 + delta)) / (r * th g)) by (apply Z.div_le_mono; lia).
+    set (q0y := (gy1 g - (by1 - delta)) / (r * th g) / sy). set (q1y := (gy1 g - (by0 + delta)) / (r * th g) / sy).
+    assert (Hqy : q0y <= ty / sy <= q1y) by (split; apply Z.div_le_mono; lia).
+    pose proof (in_up_range q0y (ty / sy) q1y sy Hsy Hqy) as Hys.
+    assert (Hvy : 0 <= ty / sy * sy <= ty).
+    { pose proof (Z.mul_div_le ty sy Hsy). assert (0 <= ty / sy) by (apply Z.div_pos; lia). nia. }
+    destruct (up_range (q0x * sx) (q1x * sx) sx) as [|hx rx] eqn:Ex; [destruct Hxs|].
+    destruct (up_range (q0y * sy) (q1y * sy) sy) as [|hy ry] eqn:Ey; [destruct Hys|].
+    unfold create_tile_list. apply in_flat_map. exists (ty / sy * sy). split; [exact Hys|].
+    apply in_map_iff. exists (tx / sx * sx). split; [|exact Hxs].
+    unfold tile_or_none. cbn [fst snd].
+    replace ((tx / sx * sx <? 0) || (ty / sy * sy <? 0) || (nx <=? tx / sx * sx) || (ny <=? ty / sy * sy)) with false; [reflexivity|].
+    symmetry. rewrite !orb_false_iff, !Z.ltb_ge, !Z.leb_gt. lia.
+  - replace (2 * (by0 + delta) - 2 * gy0 g) with (2 * (by0 + delta - gy0 g)) by lia.
+    replace (2 * (by1 - delta) - 2 * gy0 g) with (2 * (by1 - delta - gy0 g)) by lia.
+    rewrite !div2_cancel by assumption.
+    set (ty := (py - gy0 g) / (r * th g)) in *.
+    assert (Hy0 : (by0 + delta - gy0 g) / (r * th g) <= ty) by (apply Z.div_le_mono; lia).
+    assert (Hy1 : ty <= (by1 - delta - gy0 g) / (r * th g)) by (apply Z.div_le_mono; lia).
+    set (q0y := (by0 + delta - gy0 g) / (r * th g) / sy). set (q1y := (by1 - delta - gy0 g) / (r * th g) / sy).
+    assert (Hqy : q0y <= ty / sy <= q1y) by (split; apply Z.div_le_mono; lia).
+    pose proof (in_down_range q0y (ty / sy) q1y sy Hsy Hqy) as Hys.
+    assert (Hvy : 0 <= ty / sy * sy <= ty).
+    { pose proof (Z.mul_div_le ty sy Hsy). assert (0 <= ty / sy) by (apply Z.div_pos; lia). nia. }
+    destruct (up_range (q0x * sx) (q1x * sx) sx) as [|hx rx] eqn:Ex; [destruct Hxs|].
+    destruct (down_range (q1y * sy) (q0y * sy) sy) as [|hy ry] eqn:Ey; [destruct Hys|].
+    unfold create_tile_list. apply in_flat_map. exists (ty / sy * sy). split; [exact Hys|].
+    apply in_map_iff. exists (tx / sx * sx). split; [|exact Hxs].
+    unfold tile_or_none. cbn [fst snd].
+    replace ((tx / sx * sx <? 0) || (ty / sy * sy <? 0) || (nx <=? tx / sx * sx) || (ny <=? ty / sy * sy)) with false; [reflexivity|].
+    symmetry. rewrite !orb_false_iff, !Z.ltb_ge, !Z.leb_gt. lia.
+Qed.
+
+Fixpoint point_chain (g : grid) (msx msy px py l : Z) (n : nat) : list coord :=
+  match n with
+  | O => []
+  | S m => point_meta g msx msy px py l :: point_chain g msx msy px py (l + 1) m
+  end.
+
+Lemma point_chain_length g msx msy px py l n : length (point_chain g msx msy px py l n) = n.
+Proof. revert l. induction n as [|n IH]; intros l; cbn [point_chain length]; [reflexivity|]. rewrite IH. reflexivity. Qed.
+
+Lemma point_chain_last g msx msy px py n : forall l,
+    last (point_chain g msx msy px py l (S n)) (0, 0, 0) = point_meta g msx msy px py (l + Z.of_nat n).
+Proof.
+  induction n as [|n IH]; intros l.
+  - cbn [point_chain last]. f_equal. cbn. lia.
+  - change (point_chain g msx msy px py l (S (S n))) with
+        (point_meta g msx msy px py l :: point_chain g msx msy px py (l + 1) (S n)).
+    assert (Hne : point_chain g msx msy px py (l + 1) (S n) <> []) by discriminate.
+    destruct (point_chain g msx msy px py (l + 1) (S n)) as [|c r] eqn:E; [congruence|].
+    change (last (point_meta g msx msy px py l :: c :: r) (0, 0, 0)) with (last (c :: r) (0, 0, 0)).
+    rewrite <- E, IH. f_equal. lia.
+Qed.
+
+Lemma inset_limit cur sb d px py : inset cur d px py -> inset sb d px py -> inset (limit_sub_bbox cur sb) d px py.
+Proof. destruct cur as [[[c0 c1] c2] c3], sb as [[[s0 s1] s2] s3]. cbn. lia. Qed.
+
+Lemma inset_weaken b d d' px py : d' <= d -> inset b d px py -> inset b d' px py.
+Proof. destruct b as [[[b0 b1] b2] b3]. cbn. lia. Qed.
+
+Lemma point_chain_ok g msx msy cov px py :
+  geo_wf g msx msy ->
+  forall n cur l,
+    (forall k, l <= k < l + Z.of_nat n ->
+               valid_level g k = true /\ point_in_grid g px py k /\
+               cov (meta_bbox g msx msy (point_meta g msx msy px py k)) <> 0) ->
+    inset cur (res_at g l / 10) px py ->
+    (forall k, l <= k < l + Z.of_nat n - 1 ->
+               res_at g (k + 1) <= res_at g k /\
+               inset (meta_bbox g msx msy (point_meta g msx msy px py k)) (res_at g (k + 1) / 10) px py) ->
+    chain_ok g msx msy cov cur l (point_chain g msx msy px py l n).
+Proof.
+  intros Hwf. induction n as [|n IH]; intros cur l Hk Hin Hstep; cbn [point_chain chain_ok]; [exact I|].
+  destruct (Hk l ltac:(lia)) as (Hv & Hg & Hc).
+  split; [apply point_selected; assumption|]. split; [exact Hc|].
+  destruct n as [|n]; [exact I|].
+  destruct (Hstep l ltac:(lia)) as (Hres & Hmb).
+  apply IH.
+  - intros k Hk'. apply Hk. lia.
+  - apply inset_limit; [|exact Hmb]. eapply inset_weaken; [|exact Hin]. apply Z.div_le_mono; lia.
+  - intros k Hk'. apply Hstep. lia.
+Qed.
+
+(* walk_complete_interior: a point that, at every traversed level k <= L, lies in a grid tile whose meta tile is not NONE
+   for the coverage, lies at least 1/10 pixel (of level 0) inside the start rectangle and at least 1/10 pixel (of level
+   k + 1) inside its level-k meta tile, has its level-L meta tile handed to the workers when L is a seeded level *)
+Lemma walk_complete_interior_lemma g msx msy cov skipk levels root px py L :
+  geo_wf g msx msy -> levels_wf g levels -> In L levels ->
+  (forall k, 0 <= k <= L ->
+             valid_level g k = true /\ point_in_grid g px py k /\
+             cov (meta_bbox g msx msy (point_meta g msx msy px py k)) <> 0) ->
+  inset root (res_at g 0 / 10) px py ->
+  (forall k, 0 <= k < L ->
+             res_at g (k + 1) <= res_at g k /\
+             inset (meta_bbox g msx msy (point_meta g msx msy px py k)) (res_at g (k + 1) / 10) px py) ->
+  In (point_meta g msx msy px py L) (procs (geo_walk g msx msy cov skipk levels root None)).
+Proof.
+  intros Hwf Hl HL Hk Hroot Hstep.
+  assert (HL0 : 0 <= L).
+  { destruct Hl as [_ Hval]. pose proof (Hval L HL) as Hv. unfold valid_level in Hv. apply andb_true_iff in Hv.
+    rewrite Z.leb_le in Hv. lia. }
+  pose proof (walk_complete_chain_lemma g msx msy cov skipk levels root
+                (point_chain g msx msy px py 0 (S (Z.to_nat L))) Hwf Hl ltac:(discriminate)) as H.
+  rewrite point_chain_last, point_chain_length in H. rewrite Z2Nat.id in H by lia. cbn [Z.add] in H.
+  apply H.
+  - apply point_chain_ok; [assumption| |assumption|].
+    + intros k Hk'. apply Hk. lia.
+    + intros k Hk'. apply Hstep. lia.
+  - replace (Z.of_nat (S (Z.to_nat L)) - 1) with L by lia. exact HL.
+Qed.
+
+(* non-vacuity of walk_complete_interior: the point (3000, 3000) in ex_grid / ex_cov, seeded level 2 *)
+Example ex_interior_premises :
+  (forall k, 0 <= k <= 2 ->
+             valid_level ex_grid k = true /\ point_in_grid ex_grid 3000 3000 k /\
+             cov_bboxes [ex_cov] (meta_bbox ex_grid 1 1 (point_meta ex_grid 1 1 3000 3000 k)) <> 0) /\
+  inset ex_cov (res_at ex_grid 0 / 10) 3000 3000 /\
+  (forall k, 0 <= k < 2 ->
+             res_at ex_grid (k + 1) <= res_at ex_grid k /\
+             inset (meta_bbox ex_grid 1 1 (point_meta ex_grid 1 1 3000 3000 k)) (res_at ex_grid (k + 1) / 10) 3000 3000).
+Proof.
+  split; [|split].
+  - intros k Hk. assert (H : k = 0 \/ k = 1 \/ k = 2) by lia.
+    destruct H as [H|[H|H]]; subst k; vm_compute; repeat split; congruence.
+  - vm_compute. repeat split; congruence.
+  - intros k Hk. assert (H : k = 0 \/ k = 1) by lia.
+    destruct H as [H|H]; subst k; vm_compute; repeat split; congruence.
+Qed.
+
+Example ex_interior_conclusion :
+  point_meta ex_grid 1 1 3000 3000 2 = (1, 1, 2) /\
+  In (1, 1, 2) (procs (geo_walk ex_grid 1 1 (cov_bboxes [ex_cov]) 0 [0; 1; 2] ex_cov None)).
+Proof. vm_compute. split; [reflexivity|]. tauto. Qed.
